@@ -46,14 +46,15 @@ def find_denied_calls(prog, pred):
 
 
 def hashmap_drops(prog):
-    """Places where a HashMap/HashSet owning values with destructors (or opaque values) is destroyed."""
+    """Places where a HashMap/HashSet owning values with *user-defined* destructors (dyn / generic values) is destroyed.
+    Maps whose values only have loom-internal, order-insensitive destructors are not reported."""
     out = []
     seen = set()
     for inst in prog.insts:
         for b, g in inst.drops.items():
             ty = g.get("ty", "")
             if ty.startswith("std::collections::HashMap<") or ty.startswith("std::collections::HashSet<"):
-                if (g["drops"] or g["opaque"]) and (inst.key, b) not in seen:
+                if g["opaque"] and (inst.key, b) not in seen:
                     seen.add((inst.key, b))
                     out.append((inst.key, b, ty))
         for b, c in inst.calls.items():
@@ -61,7 +62,7 @@ def hashmap_drops(prog):
             if g and c.get("path") == "std::mem::drop":
                 ty = g.get("ty", "")
                 if (ty.startswith("std::collections::HashMap<") or ty.startswith("std::collections::HashSet<")) and \
-                        (g["drops"] or g["opaque"]) and (inst.key, b) not in seen:
+                        g["opaque"] and (inst.key, b) not in seen:
                     seen.add((inst.key, b))
                     out.append((inst.key, b, ty))
     return out
